@@ -184,6 +184,7 @@ type world struct {
 	exDirty  bool
 	touched  map[common.Address]bool // bridge-call targets whose claim was ever parked
 	touchedCode map[common.Address]bool // bridge-call targets that carry code
+	former      map[int][]int           // oracle id -> bridger ids it was registered with earlier (edit-bridger, unbond)
 
 	pr        sdkmath.Int
 	threshold sdkmath.Int
@@ -215,7 +216,7 @@ func newWorld(t *testing.T, s *hx.Suite, out *hx.Out, rng *rand.Rand, chain stri
 		gov:      authtypes.NewModuleAddress(govtypes.ModuleName).String(),
 		oracleID: map[string]int{}, bridgerID: map[string]int{}, extID: map[string]int{}, hashID: map[string]int{},
 		specs: map[[2]uint64]claimSpec{}, observedAt: map[uint64]string{}, executed: map[uint64]bool{},
-		rebonded: map[int]bool{}, reported: map[string]bool{}, unbonded: map[int]bool{}, touched: map[common.Address]bool{}, touchedCode: map[common.Address]bool{}, pr: sdk.DefaultPowerReduction, multiple: mult}
+		rebonded: map[int]bool{}, reported: map[string]bool{}, unbonded: map[int]bool{}, touched: map[common.Address]bool{}, touchedCode: map[common.Address]bool{}, former: map[int][]int{}, pr: sdk.DefaultPowerReduction, multiple: mult}
 	w.threshold = w.pr.MulRaw(thrUnits)
 	rich := sdk.NewCoin(fxtypes.DefaultDenom, w.pr.MulRaw(100_000_000))
 	for i := 0; i < nO; i++ {
@@ -575,6 +576,23 @@ func (w *world) monitors(before pre) {
 	if total.LT(online) {
 		w.violate("C02", fmt.Sprintf("recorded total power %s is lower than the combined power %s of the online oracles", total, online))
 	}
+	// the bridger index: every entry must name the bridger registered in the record of the oracle it points at (otherwise
+	// an address that is not the oracle's registered bridger can cast its vote)
+	for _, p := range hx.RawPrefix(ctx, w.key, crosschaintypes.OracleAddressByBridgerKey) {
+		b := sdk.AccAddress(p[0][1:])
+		o, found := w.k.GetOracle(ctx, sdk.AccAddress(p[1]))
+		if !found || o.BridgerAddress != b.String() {
+			key := "bridger-index/" + b.String()
+			if !w.reported[key] {
+				w.reported[key] = true
+				reg := "none (no such oracle)"
+				if found {
+					reg = strconv.Itoa(w.bridgerID[o.BridgerAddress])
+				}
+				w.violate("C01 C02", fmt.Sprintf("bridger index lets bridger %d vote for oracle %d whose registered bridger is %s", w.bridgerID[b.String()], w.oid(sdk.AccAddress(p[1]).String()), reg))
+			}
+		}
+	}
 	perNonce := map[uint64]map[string]int{}
 	for _, a := range w.atts() {
 		m := perNonce[a.nonce]
@@ -839,6 +857,13 @@ func (w *world) opEditBridger(o, b int) string {
 	if !ok1 || !ok2 {
 		return "skip"
 	}
+	if orc, found := w.k.GetOracle(w.s.Ctx, oa); found {
+		defer func(old int) {
+			if cur, f := w.k.GetOracle(w.s.Ctx, oa); !f || w.bridgerID[cur.BridgerAddress] != old {
+				w.former[o] = append(w.former[o], old)
+			}
+		}(w.bridgerID[orc.BridgerAddress])
+	}
 	before := w.snapshot()
 	// MsgEditBridger.ValidateBasic demands a *validator* bech32 bridger address while the handler parses an account
 	// address, so no transaction can edit a bridger on this tree; the handler is driven directly (message-server level),
@@ -860,6 +885,11 @@ func (w *world) opUnbond(o int) string {
 	}
 	ubd, bal := false, sdkmath.ZeroInt()
 	if orc, found := w.k.GetOracle(w.s.Ctx, oa); found {
+		defer func(old int) {
+			if _, f := w.k.GetOracle(w.s.Ctx, oa); !f {
+				w.former[o] = append(w.former[o], old)
+			}
+		}(w.bridgerID[orc.BridgerAddress])
 		da := orc.GetDelegateAddress(w.chain)
 		if _, err := w.s.App.StakingKeeper.GetUnbondingDelegation(w.s.Ctx, da, orc.GetValidator()); err == nil {
 			ubd = true
@@ -1351,6 +1381,22 @@ func (w *world) randomClaim() {
 			n = r.lastEff + 2 // skip
 		case 2:
 			n = lo + 1
+		}
+	}
+	// a bridger the oracle was registered with earlier (before an edit-bridger / an unbond), with the nonce that would be
+	// accepted from its current bridger
+	if len(regs) > 0 && w.rng.Intn(15) == 0 {
+		var cands []orcView
+		for _, r := range regs {
+			if len(w.former[r.id]) > 0 && r.o.Online {
+				cands = append(cands, r)
+			}
+		}
+		if len(cands) > 0 {
+			r := cands[w.rng.Intn(len(cands))]
+			inner = w.former[r.id][w.rng.Intn(len(w.former[r.id]))]
+			n = r.lastEff + 1
+			w.out.Count("claim:through-former-bridger")
 		}
 	}
 	if n == 0 {
